@@ -22,7 +22,7 @@ func init() { register("C19", genC19) }
 type c19Desc struct {
 	N    int    `json:"processes"`
 	Salt string `json:"salt"`
-	Kind string `json:"kind"` // mix | contract
+	Kind string `json:"kind"` // mix | contract | burst
 }
 
 func genC19(tier string, seed int64) []Case {
@@ -31,6 +31,10 @@ func genC19(tier string, seed int64) []Case {
 		cases = append(cases, Case{ID: fmt.Sprintf("C19/%s/%s/n%d", d.Kind, d.Salt, d.N), Class: d.Kind, Desc: d, Timeout: 240 * time.Second, Run: func(c *Ctx) { runC19(c, d) }})
 	}
 	add(c19Desc{Kind: "contract", N: 1, Salt: "fixed"})
+	add(c19Desc{Kind: "burst", N: 40, Salt: "fixed"})
+	if tier == "thorough" {
+		add(c19Desc{Kind: "burst", N: 200, Salt: "large"})
+	}
 	nb := 12
 	sizes := []int{1, 2, 5, 10, 20, 40}
 	if tier == "thorough" {
@@ -103,7 +107,12 @@ func runC19(c *Ctx, d c19Desc) {
 	evch, _ := sup.Events(context.Background(), &supvmodel.EventsRequest{Domain: "runtime"})
 	var mu sync.Mutex
 	events := map[string][]supvmodel.Event{}
+	readGate := make(chan struct{})
+	if d.Kind != "burst" {
+		close(readGate)
+	}
 	go func() {
+		<-readGate // burst: nobody reads the events while the processes exit
 		for e := range evch {
 			if t := e.Event.ProcessTerminated(); t != nil {
 				mu.Lock()
@@ -115,6 +124,52 @@ func runC19(c *Ctx, d c19Desc) {
 	ctx := context.Background()
 	r := rng(c.Seed, "c19"+d.Salt)
 
+	if d.Kind == "burst" {
+		// many processes terminate while the consumer of the event stream is busy elsewhere: when it
+		// comes back every one of them must still have its event
+		want := map[string]int32{}
+		for i := 0; i < d.N; i++ {
+			name := fmt.Sprintf("b%d", i)
+			code := int32(i % 7)
+			want[name] = code
+			if err := sup.Exec(ctx, &supvmodel.ExecRequest{Domain: "runtime", Name: name, Path: "/bin/sh", Args: []string{"-c", fmt.Sprintf("exit %d", code)}}); err != nil {
+				c.Inconclusive("exec failed: " + err.Error())
+				close(readGate)
+				return
+			}
+		}
+		time.Sleep(700 * time.Millisecond) // all of them have exited by now
+		close(readGate)
+		dl := time.Now().Add(10 * time.Second)
+		for time.Now().Before(dl) {
+			mu.Lock()
+			n := len(events)
+			mu.Unlock()
+			if n >= d.N {
+				break
+			}
+			time.Sleep(5 * time.Millisecond)
+		}
+		time.Sleep(50 * time.Millisecond)
+		mu.Lock()
+		missing, wrong := 0, 0
+		for name, code := range want {
+			evs := events[name]
+			if len(evs) != 1 {
+				missing++
+				continue
+			}
+			if evs[0].Event.ExitStatus == nil || *evs[0].Event.ExitStatus != code {
+				wrong++
+			}
+		}
+		mu.Unlock()
+		c.Check(missing == 0, "exactly_one_event", fmt.Sprintf("C19/burst/events-missing-or-duplicated"), fmt.Sprintf("%d of %d processes that exited while nobody was reading the event stream do not have exactly one termination event", missing, d.N), nil)
+		c.Check(wrong == 0, "exit_status_truthful", "C19/burst/wrong-status", fmt.Sprintf("%d events of the burst carry a wrong exit status", wrong), nil)
+		c.Counter("processes", d.N)
+		c.SetTrace("burst"+d.Salt, true)
+		return
+	}
 	if d.Kind == "contract" {
 		// unknown names
 		c.Check(sup.Kill(ctx, &supvmodel.KillRequest{Domain: "runtime", Name: "nobody", Deadline: time.Now().Add(time.Second)}) != nil, "kill_unknown_fails", "C19/kill-unknown-ok", "Kill of an unknown process name succeeded", nil)
